@@ -32,17 +32,34 @@ BinApplicable(op, a, b) ==
 UnApplicable(op, a) == (op = "Neg" /\ a \in NumericK) \/ (op = "Not" /\ a = "Boolean")
 DataKinds == {"OutOfBounds", "TooLarge", "AlreadyDeclaredDomainVariable", "AlreadyDeclaredVariable", "AlreadyDefined"}
 DataMessages == <<"Minimum value", "not found in graph", "already declared as static">>
-DataDependent(e) ==
+IntegerK == {"Integer", "PositiveInteger"}
+StartsWith(s, p) == Len(s) >= Len(p) /\ SubSeq(s, 1, Len(p)) = p
+\* for UndeclaredVariable* the field msg carries the name; for WrongArgument lhs = expected kind, rhs = got kind
+DataDependent(ev, e) ==
    \/ e.kind \in DataKinds
    \/ (e.kind = "BinOpError" /\ BinApplicable(e.op, e.lhs, e.rhs))
    \/ (e.kind = "UnOpError" /\ UnApplicable(e.op, e.lhs))
    \/ (e.kind = "Other" /\ \E i \in 1..Len(DataMessages) : Contains(e.msg, DataMessages[i]))
+   \* a member of a DECLARED indexed family that does not exist: the index value is out of the declared range
+   \/ (e.kind = "UndeclaredVariableDomain" /\ \E i \in 1..Len(ev.families) : StartsWith(e.msg, ev.families[i]))
+   \* the sign of an integer value is data: PositiveInteger wanted, (negative) Integer given
+   \/ (e.kind = "WrongArgument" /\ e.lhs \in IntegerK /\ e.rhs \in IntegerK)
+\* classes of type-class failures (each is one defect of the type checker, reported under its own signature)
+Class(ev, e) ==
+   IF (e.kind = "Other" /\ Contains(e.msg, "is a domain variable and cannot be used inside expression valuation"))
+      \/ (e.kind = "UndeclaredVariable" /\ \E i \in 1..Len(ev.decision) : ev.decision[i] = e.msg)
+   THEN "a decision variable is accepted where a constant value is required"
+   ELSE IF e.kind = "WrongArgument" /\ e.lhs \in IntegerK /\ e.rhs = "Number"
+   THEN "a non-integer number is accepted where an integer is required"
+   ELSE IF e.kind = "Other" /\ Contains(e.msg, "Cannot destructure")
+   THEN "a destructuring pattern longer than the elements it binds is accepted"
+   ELSE "type-class error " \o e.kind
 
 Check(ev) ==
    IF ev.out = "panic" THEN PrintT(<<"REJECT", "C19", ev.id, "panic", ev.pos, ev.filler>>)
    ELSE IF ev.out # "ran" THEN PrintT(<<"STAT", ev.id, "unparsable", "", "">>)
-   ELSE IF ev.accepted /\ ~ev.transformed /\ ~DataDependent(ev.tr)
-        THEN PrintT(<<"REJECT", "C19", ev.id, "accepted by the type checker but transform fails with the type-class error " \o ev.tr.kind, ev.pos, ev.filler, ev.tr.text>>)
+   ELSE IF ev.accepted /\ ~ev.transformed /\ ~DataDependent(ev, ev.tr)
+        THEN PrintT(<<"REJECT", "C19", ev.id, "accepted by the type checker but transform fails: " \o Class(ev, ev.tr), ev.pos, ev.filler, ev.tr.text>>)
    ELSE PrintT(<<"STAT", ev.id, IF ev.accepted THEN "accepted" ELSE "rejected",
                  IF ev.transformed THEN "ok" ELSE ev.tr.kind, IF ev.accepted THEN "" ELSE ev.tc.kind>>)
 
